@@ -27,6 +27,7 @@ the frames of one connection sequentially (ProtoServer.handleConn), at most one 
 import GoaktVerif.Model.C28
 import GoaktVerif.Spec.C28
 import GoaktVerif.Lemmas.C28
+import GoaktVerif.Lemmas.C28P
 
 namespace GoaktVerif.C28
 open GoaktVerif.Model.C28 GoaktVerif.Spec.C28
@@ -85,5 +86,31 @@ example :
     let s := run { maxIdle := 1 } leak
       [.newCall 1 false, .call 1 (.get 0 true), .call 1 (.write true), .call 1 (.serve true), .call 1 (.read true), .call 1 (.put true)]
     (s.calls.map (·.result))[1]? = some (some (some [(0, 0)])) := by decide
+
+
+/-! ### the request a call writes is its own: payload buffers are never shared -/
+
+/-- PAYLOAD BUFFERS ARE EXCLUSIVE: under every interleaving of `serializePayload` (pool `Get`) and the single
+    deferred `payloadPool.Put` of any number of calls, the backing arrays owned by calls in progress are pairwise
+    distinct and none of them is referenced by a box still in the pool — no call can overwrite the payload another
+    call's envelope still references, so `write` above really sends the caller's own request.  (That there is
+    exactly one `Put` per function is a FACT re-extracted from client.go on every run.) -/
+theorem C28_payload_exclusive (acts : List Payload.PAct) (hl : ∀ a ∈ acts, a.legal = true) :
+    let s := Payload.prun {} acts
+    (s.owned.map (·.2)).Nodup ∧ ∀ b ∈ s.pool, b ∉ s.owned.map (·.2) := by
+  obtain ⟨h1, _⟩ := pinv_run acts {} hl pinv_init
+  have := List.nodup_append.mp h1
+  exact ⟨this.2.1, fun b hb hm => this.2.2 b hb b hm rfl⟩
+
+/-- non-vacuity: three calls, buffers recycled through the pool, all distinct while owned -/
+example :
+    let s := Payload.prun {} [.get 0, .get 1, .put 0, .get 2, .put 1, .get 3]
+    s.owned = [(3, 1), (2, 0)] ∧ s.pool = [] := by decide
+
+/-- TEST (what the discipline excludes; seeded defect C28-s2): a second `Put` of call 0's buffer puts two boxes
+    for the same array into the pool, and the next two calls both write into array 0. -/
+example :
+    let s := Payload.prun {} [.get 0, .put 0, .putAgain 0, .get 1, .get 2]
+    s.owned = [(2, 0), (1, 0)] := by decide
 
 end GoaktVerif.C28
